@@ -85,4 +85,57 @@ def run(ctx):
         else:
             r.fail(rule2, 'row:' + name, 'row %s handles an expired timer without a queued publish request but does not count the lifetime down: an abandoned subscription would never expire' % name, loc=b.loc)
     r.floor(rule2, 'idle_timer_rows', m, 2)
+    decision_table_rules(ctx)
     r.assumptions += ['keep_alive_counter is never 0 (reset to max_keep_alive_count >= 1, decremented only when > 1)']
+
+
+def decision_table_rules(ctx):
+    """rules over the enumerated decision table of update_state (substate.rows_of)"""
+    from .substate import rows_of, compatible, state_is, describe
+    r = ctx.r
+    rows = rows_of(ctx)
+    if not rows:
+        r.lost('decision-table', 'update_state', 'decision table of update_state could not be enumerated'); return
+    r.count('decision_paths', len(rows))
+    r.floor('decision-table', 'decision_paths', len(rows), 300)
+    loc = ctx.db.body('server::subscriptions::subscription::Subscription::update_state').loc
+    def report(rule, key, bad, good_text, bad_text):
+        if bad:
+            seen = set()
+            for row in bad:
+                k = '%s:%s' % (key, row['row'])
+                if k in seen:
+                    continue
+                seen.add(k)
+                r.fail(rule, k, bad_text % row['row'], detail=describe(row), loc=loc, witness={'abstract_input': {a: str(v) for a, v in row['inputs'].items()}})
+        else:
+            r.ok(rule, key, good_text, loc=loc)
+    # (A) a row that consumes a publish request (answers it with a keep-alive or with notifications) proves the client is alive
+    consumed = [x for x in rows if x['action'] in ('ReturnKeepAlive', 'ReturnNotifications')]
+    bad = [x for x in consumed if 'reset_lifetime_counter' not in x['effects']]
+    report('request-consumed-resets-lifetime', 'rows', bad,
+           'all %d paths that answer a publish request reset the lifetime counter' % len(consumed),
+           'row %s answers a publish request without resetting the lifetime counter: a subscription whose client keeps sending publish requests still expires')
+    # (B) keep-alive cadence in the KeepAlive state
+    idle = [x for x in rows if state_is(x, 'KeepAlive') and x['inputs'].get('state', ('is', 'KeepAlive'))[0] == 'is' and compatible(x, timer_expired=True, receive_publish_request=False) and
+            x['inputs'].get('lifetime_is_1') is not True and (compatible(x, publishing_enabled=False) or compatible(x, notifications_available=False)) and
+            not (x['inputs'].get('publishing_enabled') is True and x['inputs'].get('notifications_available') is True)]
+    due = [x for x in idle if compatible(x, req_queued=True, keep_alive_is_1=True) and x['inputs'].get('keep_alive_gt_1') is not True and x['inputs'].get('req_queued') is True and x['inputs'].get('keep_alive_is_1') is True]
+    bad = [x for x in due if not (x['action'] == 'ReturnKeepAlive' and 'reset_keep_alive_counter' in x['effects'])]
+    report('keep-alive-cadence', 'due', bad,
+           'KeepAlive, timer expired, request queued, counter == 1, nothing to report: %d paths all send a keep-alive and reset the counter' % len(due),
+           'a keep-alive is due (KeepAlive state, counter == 1, publish request queued, nothing to report) but the path ends in row %s without sending it / resetting the counter')
+    cnt = [x for x in idle if x['inputs'].get('keep_alive_gt_1') is True]
+    bad = [x for x in cnt if not (x['keep_alive_decremented'] and 'start_publishing_timer' in x['effects'] and x['action'] == 'None')]
+    report('keep-alive-cadence', 'countdown', bad,
+           'KeepAlive, timer expired, counter > 1, nothing to report: %d paths all decrement the counter and restart the timer' % len(cnt),
+           'KeepAlive state with counter > 1 and nothing to report ends in row %s without counting the keep-alive counter down')
+    if not due or not cnt:
+        r.lost('keep-alive-cadence', 'paths', 'keep-alive rows (#15 / #16) not found among the enumerated paths')
+    # (C) a timer expiry that consumes no publish request counts the lifetime down (start_publishing_timer decrements it)
+    tm = [x for x in rows if x['inputs'].get('timer_expired') is True and x['inputs'].get('state', ('not',))[0] == 'is' and x['inputs']['state'][1] in ('Normal', 'Late', 'KeepAlive')
+          and x['action'] == 'None' and x['row'] not in ('None0', 'Closed27')]
+    bad = [x for x in tm if 'start_publishing_timer' not in x['effects']]
+    report('timer-without-request-counts-down', 'rows', bad,
+           '%d timer-expiry paths that answer nothing all restart the publishing timer (lifetime counts down)' % len(tm),
+           'row %s handles a timer expiry without answering a request and without start_publishing_timer: the lifetime does not count down')
